@@ -60,11 +60,13 @@ const (
 	SecForAcc          // ac = 0; for fi = 0; fi < 3; fi += 1 { ac = ac + 1; H.Y }; H.Acc(r, ac)   a counting loop with a scheduling point in its body
 	SecApiSet          // H.ApiIs(r, QA); QA = Req.ID; H.Y       reads, then assigns, a by-value entry of the pool's api map (the assignment may fail)
 	SecRangeGrow       // forRange gk := Req.Sl { Req.Grow(); H.Y }   a loop over a slice that its own body keeps growing
+	SecThreeSetLoc     // l3 = H.Obj3(r); l3.P.X = 5; H.Y           a three-level store whose root is a rule local (may fail)
+	SecOptFn           // H.OptV(r, ofn(r))                        a function value only some requests inject
 	SecOptName         // H.OptSet(r); ov = r+300                  a plain name that some calls inject (then it is shared) and others do not (then it is a local)
 	numSecKinds
 )
 
-var secNames = [...]string{"Y", "Call", "AsgCall", "AsgKind", "Div", "Idx", "Nil", "Unknown", "Arg", "IfKind", "IfIdx", "IfNil", "Elif", "ForKind", "ForStep", "Unb", "UnbCont", "Conc", "Local", "Reader", "Stop", "ShW", "ShR", "Upd", "Echo", "Opt", "IfCall", "ForRange", "MapIdx", "SetKind", "SetNil", "RangeKey", "ThreeNil", "IfThreeNil", "ArgCount", "NilMapSet", "FuncCall", "IfFunc", "ThreeSet", "LocObj", "LocObjReader", "LocAlias", "FnArgKind", "FnArgCount", "LocStruct", "ElifCall", "ForAcc", "ApiSet", "RangeGrow", "OptName"}
+var secNames = [...]string{"Y", "Call", "AsgCall", "AsgKind", "Div", "Idx", "Nil", "Unknown", "Arg", "IfKind", "IfIdx", "IfNil", "Elif", "ForKind", "ForStep", "Unb", "UnbCont", "Conc", "Local", "Reader", "Stop", "ShW", "ShR", "Upd", "Echo", "Opt", "IfCall", "ForRange", "MapIdx", "SetKind", "SetNil", "RangeKey", "ThreeNil", "IfThreeNil", "ArgCount", "NilMapSet", "FuncCall", "IfFunc", "ThreeSet", "LocObj", "LocObjReader", "LocAlias", "FnArgKind", "FnArgCount", "LocStruct", "ElifCall", "ForAcc", "ApiSet", "RangeGrow", "ThreeSetLoc", "OptFn", "OptName"}
 
 // FaultCapable reports whether a section hosts a fault point.
 func FaultCapable(k int) bool {
@@ -144,7 +146,7 @@ func (r *RuleDef) YieldKs() []int {
 		case SecY:
 			ks = append(ks, yk)
 			yk++
-		case SecRangeKey, SecLocObj, SecLocAlias, SecLocStruct, SecForAcc, SecApiSet, SecRangeGrow:
+		case SecRangeKey, SecLocObj, SecLocAlias, SecLocStruct, SecForAcc, SecApiSet, SecRangeGrow, SecThreeSetLoc:
 			ks = append(ks, yk)
 			yk++
 		case SecElifCall:
@@ -449,6 +451,11 @@ func (r *RuleDef) Render() string {
 			fmt.Fprintf(&b, "Resp.Echo = Req.ID\nH.Id(%d, Req.ID)\n", id)
 		case SecOpt:
 			fmt.Fprintf(&b, "H.B(%d,%d)\nH.Opt(%d, Opt.ID)\n", id, p, id)
+		case SecOptFn:
+			fmt.Fprintf(&b, "H.B(%d,%d)\nH.OptV(%d, ofn(%d))\n", id, p, id, id)
+		case SecThreeSetLoc:
+			fmt.Fprintf(&b, "l3 = H.Obj3(%d)\nH.M(%d,%d)\nl3.P.X = 5\nH.Y(%d,%d)\n", id, id, p, id, yk)
+			yk++
 		}
 	}
 	if hasLocal {
